@@ -771,3 +771,169 @@ Definition init_ok_f (f : flags) : bool :=
   forallb (init_ok_entry f tf tn tt) tf.
 Lemma default_init_ok : forallb init_ok_f all_flags = true.
 Proof. vm_compute. reflexivity. Qed.
+
+Lemma kind_insts_kind a o tpl view skip i : In i (kind_insts a o tpl view skip) ->
+  is_some (i_service i) = service_tpl tpl /\ is_some (i_proto i) = occurs "%proto" tpl.
+Proof.
+  unfold kind_insts, service_tpl. destruct (occurs "%proto" tpl); [|destruct (occurs "%service" tpl)]; intro H.
+  - apply in_map_iff in H as (u & <- & _). auto.
+  - apply in_map_iff in H as (u & <- & _). auto.
+  - destruct H as [<-|[]]. auto.
+Qed.
+Lemma tpl_insts_kind a o tpl i : In i (tpl_insts a o tpl) ->
+  is_some (i_service i) = service_tpl tpl /\ is_some (i_proto i) = occurs "%proto" tpl.
+Proof. intro H. apply tpl_insts_split in H as (_ & view & skip & Hk & _). eapply kind_insts_kind; eauto. Qed.
+
+Definition ns_prefix (a : rapi) : string := if is_empty (ra_ns a) then "" else ra_ns a ++ "/".
+Definition root_of (a : rapi) : string := ns_prefix a ++ ra_nv a.
+Definition alias_of (a : rapi) : string := ns_prefix a ++ ra_name a.
+Definition pkg_base_str (a : rapi) (tpl : string) : option string :=
+  if root_tpl tpl then Some (root_of a) else if alias_tpl tpl then Some (alias_of a) else None.
+
+Lemma conc_ns_atoms a old i : conc (val_of a i) (ns_atoms (flags_of a old i)) = ns_prefix a.
+Proof.
+  unfold ns_atoms, ns_prefix, flags_of, nonempty. cbn [fl_ns]. destruct (ra_ns a) eqn:E; cbn; rewrite ?E; reflexivity.
+Qed.
+Lemma conc_nv_atoms a old i : wf_rapi a old -> conc (val_of a i) (nv_atoms (flags_of a old i)) = ra_nv a.
+Proof.
+  intro W. rewrite (wf_nv a old W). unfold nv_atoms, flags_of, nonempty. cbn [fl_ver fl_old].
+  destruct (ra_version a) as [|c v] eqn:Ev; cbn; rewrite ?Ev; [now rewrite sapp_nil_r|].
+  destruct old; cbn; now rewrite sapp_nil_r.
+Qed.
+Lemma pkg_base_conc a old i tpl base_s : wf_rapi a old -> pkg_base_str a tpl = Some base_s ->
+  exists base, pkg_base (flags_of a old i) tpl = Some base /\ conc (val_of a i) base = base_s.
+Proof.
+  intros W H. unfold pkg_base_str in H. unfold pkg_base.
+  destruct (root_tpl tpl); [|destruct (alias_tpl tpl); [|discriminate]]; inversion H; subst base_s.
+  - exists (root_atoms (flags_of a old i)). split; [reflexivity|]. unfold root_atoms, root_of.
+    now rewrite conc_app, conc_ns_atoms, conc_nv_atoms.
+  - exists (alias_atoms (flags_of a old i)). split; [reflexivity|]. unfold alias_atoms, alias_of.
+    rewrite conc_app, conc_ns_atoms. cbn. now rewrite sapp_nil_r.
+Qed.
+
+Lemma word_char_slash c : word_char c = true -> Ascii.eqb c slash = false.
+Proof. intro H. apply word_char_not_slash in H. exact H. Qed.
+Lemma word_no_slash w : sall word_char w = true -> contains slash w = false.
+Proof.
+  induction w as [|c w IH]; intro H; [reflexivity|]. cbn [sall contains] in *. apply andb_true_iff in H as [Hc Hw].
+  rewrite (word_char_slash c Hc). cbn [orb]. auto.
+Qed.
+Lemma is_wordb_no_slash w : is_wordb w = true -> contains slash w = false.
+Proof. unfold is_wordb. intro H. apply andb_true_iff in H as [_ H]. now apply word_no_slash. Qed.
+
+Lemma vals_slashfree a old i : wf_rapi a old -> inst_wf i -> List.length (i_view i) <= 1 ->
+  forall v, v <> VNs -> contains slash (val_of a i v) = false.
+Proof.
+  intros W (Hview & Hsvc & Hproto) Hlen v Hv. destruct v; cbn [val_of]; try congruence.
+  - apply is_wordb_no_slash, (wf_name a old W).
+  - destruct (wf_ver a old W) as [->|H]; [reflexivity | now apply is_wordb_no_slash].
+  - destruct (i_view i) as [|n [|m l]]; [reflexivity| |simpl in Hlen; lia]. cbn. inversion Hview; subst. now apply is_wordb_no_slash.
+  - destruct (i_service i) as [s|]; [|reflexivity]. cbn. apply is_wordb_no_slash, Hsvc. reflexivity.
+  - destruct (i_proto i) as [s|]; [|reflexivity]. cbn. apply is_wordb_no_slash, Hproto. reflexivity.
+Qed.
+
+Lemma sapp_inv_head a : forall b c, a ++ b = a ++ c -> b = c.
+Proof. induction a as [|x a IH]; intros b c H; simpl in H; [assumption|]. inversion H. auto. Qed.
+
+Lemma inst_name_sym a old i r : wf_rapi a old -> inst_wf i -> sym_filename (flags_of a old i) (i_tpl i) = Some r ->
+  inst_name a i = conc (val_of a i) r.
+Proof.
+  intros W Hw E. unfold inst_name. rewrite (ctx_of_val_inst a old i W).
+  exact (proj1 (get_filename_sound _ _ _ r (val_ok_inst a old i W Hw) E)).
+Qed.
+
+Lemma opt_atoms_eqb_eq o t : opt_atoms_eqb o t = true -> o = Some t.
+Proof. destruct o as [r|]; simpl; [|discriminate]. intro H. apply atoms_eqb_eq in H. now subst. Qed.
+
+Lemma shallow_view_len a v : In v (subviews a []) -> List.length v <= 1.
+Proof. intro H. apply subviews_top_nonempty in H as (n & -> & _). simpl. lia. Qed.
+
+(* init_complete: every directory at or below the package root (and below the unversioned alias package) that holds an emitted
+   file of the package templates also holds an emitted __init__.py — for every well-formed API with proto sub-packages at
+   most one level deep and every option set *)
+Lemma init_complete a o old l : wf_rapi a old -> shallow a -> instances default_templates a o = Ok l ->
+  forall i, In i l -> forall base_s, pkg_base_str a (i_tpl i) = Some base_s ->
+  forall x y, inst_name a i = base_s ++ x ++ String slash y ->
+  exists i', In i' l /\ inst_name a i' = base_s ++ x ++ "/__init__.py".
+Proof.
+  intros W Hs Hl i Hi base_s Hb x y Hname.
+  pose proof (instances_inv _ a o old l W Hl) as Hinv. rewrite Forall_forall in Hinv.
+  pose proof (instances_shallow _ a o l Hs Hl) as El.
+  assert (Hi' := Hi). rewrite El in Hi'. apply in_flat_map in Hi' as (tpl & Htpl & Hti).
+  destruct (tpl_insts_view a o tpl i Hti) as (Et & G & Hview).
+  destruct (tpl_insts_kind a o tpl i Hti) as (Ks & Kp).
+  destruct (Hinv i Hi) as [_ Hwf].
+  assert (Hlen : List.length (i_view i) <= 1).
+  { destruct Hview as [->|[_ Hv]]; [simpl; lia | now apply shallow_view_len in Hv]. }
+  rewrite Et in Hb. destruct (pkg_base_conc a old i tpl base_s W Hb) as (base & Hpb & Hbase).
+  pose proof default_init_ok as F. rewrite forallb_forall in F.
+  specialize (F (flags_of a old i) (all_flags_complete _)). unfold init_ok_f in F. rewrite forallb_forall in F.
+  assert (Hent : In (tpl, sym_filename (flags_of a old i) tpl) (sym_table (flags_of a old i))).
+  { unfold sym_table. apply in_map_iff. exists tpl. auto. }
+  apply F in Hent. clear F. unfold init_ok_entry in Hent. cbn [fst snd] in Hent.
+  assert (C : consistent (flags_of a old i) tpl = true).
+  { unfold consistent, flags_of. cbn [fl_svc fl_proto]. rewrite Ks, Kp, !eqb_reflx. reflexivity. }
+  rewrite C, Hpb in Hent. cbn [negb] in Hent.
+  destruct (sym_filename (flags_of a old i) tpl) as [r|] eqn:E; [|discriminate].
+  destruct (strip_atoms base r) as [rest|] eqn:Es; [|discriminate]. apply strip_atoms_sound in Es.
+  apply andb_true_iff in Hent as [Hnons Hall]. rewrite forallb_forall in Hall.
+  assert (Hn : inst_name a i = conc (val_of a i) r) by (apply (inst_name_sym a old i r W Hwf); now rewrite Et).
+  rewrite Hn, Es, conc_app, Hbase in Hname. apply sapp_inv_head in Hname.
+  destruct (conc_split_slash (val_of a i) rest x y) as (t1 & t2 & Er & Ex & Ey); [|exact Hname|].
+  { intros v Hv. apply (vals_slashfree a old i W Hwf Hlen). intros ->. exact (no_var_in VNs rest Hnons Hv). }
+  specialize (Hall t1). rewrite Er in Hall. specialize (Hall (slash_splits_in t1 t2)).
+  set (target := (base ++ t1 ++ init_text)%list) in *.
+  assert (Htarget : conc (val_of a i) target = base_s ++ x ++ "/__init__.py").
+  { unfold target. rewrite !conc_app, Hbase, Ex. unfold init_text. now rewrite conc_atoms_of. }
+  (* common: an instance with the view / service of i but another template, whose symbolic name is the target *)
+  assert (Finish : forall i', In i' l -> sym_filename (flags_of a old i') (i_tpl i') = Some target ->
+                   (forall v, In (Var v) target -> val_of a i' v = val_of a i v) ->
+                   exists i'', In i'' l /\ inst_name a i'' = base_s ++ x ++ "/__init__.py").
+  { intros i' Hin Hsym Hext. exists i'. split; [assumption|].
+    rewrite (inst_name_sym a old i' target W (proj2 (Hinv i' Hin)) Hsym), <- Htarget. now apply conc_ext. }
+  destruct (existsb (wit_same (flags_of a old i) tpl target) (sym_table (noctx (flags_of a old i)))) eqn:W1.
+  - (* an __init__ template rendered for the same view *)
+    apply existsb_exists in W1 as (e' & He' & Hw). unfold wit_same in Hw.
+    destruct (opt_atoms_eqb (snd e') target) eqn:Eq; [|discriminate]. apply opt_atoms_eqb_eq in Eq.
+    apply andb_true_iff in Hw as [Hw Hle]. apply andb_true_iff in Hw as [Hw Hnp]. apply andb_true_iff in Hw as [Hw Hnsv].
+    apply andb_true_iff in Hw as [Hp Hsubc].
+    unfold sym_table in He'. apply in_map_iff in He' as (tpl' & <- & Htpl'). cbn [fst snd] in *.
+    apply (Finish (mk_inst tpl' (i_view i) None None)).
+    + rewrite El. apply in_flat_map. exists tpl'. split; [assumption|].
+      apply plain_in; [assumption | eapply ggate_le_sound; eauto |].
+      destruct Hview as [E0|[_ Hv]]; [now left|]. right. split; [|assumption].
+      destruct (i_view i) as [|n vl] eqn:Ev; [apply subviews_top_nonempty in Hv as (? & ? & _); discriminate|].
+      unfold flags_of in Hsubc. cbn [fl_sub] in Hsubc. rewrite Ev in Hsubc. exact Hsubc.
+    + exact Eq.
+    + intros v Hv. destruct v; try reflexivity.
+      * exfalso. exact (no_var_in VSvc target Hnsv Hv).
+      * exfalso. exact (no_var_in VProto target Hnp Hv).
+  - destruct (existsb (wit_top tpl target) (sym_table (topctx (flags_of a old i)))) eqn:W2.
+    + (* an __init__ template rendered for the top view (directories above the sub-package) *)
+      apply existsb_exists in W2 as (e' & He' & Hw). unfold wit_top in Hw.
+      destruct (opt_atoms_eqb (snd e') target) eqn:Eq; [|discriminate]. apply opt_atoms_eqb_eq in Eq.
+      apply andb_true_iff in Hw as [Hw Hle]. apply andb_true_iff in Hw as [Hw Hnsub]. apply andb_true_iff in Hw as [Hw Hnp].
+      apply andb_true_iff in Hw as [Hp Hnsv].
+      unfold sym_table in He'. apply in_map_iff in He' as (tpl' & <- & Htpl'). cbn [fst snd] in *.
+      apply (Finish (mk_inst tpl' [] None None)).
+      * rewrite El. apply in_flat_map. exists tpl'. split; [assumption|].
+        apply plain_in; [assumption | eapply ggate_le_sound; eauto | now left].
+      * exact Eq.
+      * intros v Hv. destruct v; try reflexivity.
+        -- exfalso. exact (no_var_in VSub target Hnsub Hv).
+        -- exfalso. exact (no_var_in VSvc target Hnsv Hv).
+        -- exfalso. exact (no_var_in VProto target Hnp Hv).
+    + (* an __init__ template rendered for the same service *)
+      apply existsb_exists in Hall as (e' & He' & Hw). unfold wit_svc in Hw.
+      destruct (opt_atoms_eqb (snd e') target) eqn:Eq; [|discriminate]. apply opt_atoms_eqb_eq in Eq.
+      apply andb_true_iff in Hw as [Hw Hle]. apply andb_true_iff in Hw as [Hw Hfp]. apply andb_true_iff in Hw as [Hw Hfs].
+      apply andb_true_iff in Hw as [Hw Hsa]. apply andb_true_iff in Hw as [Hw Hsub']. apply andb_true_iff in Hw as [Hw Hsub].
+      apply andb_true_iff in Hw as [Hst Hst'].
+      unfold sym_table in He'. apply in_map_iff in He' as (tpl' & <- & Htpl'). cbn [fst snd] in *.
+      destruct (tpl_insts_service a o tpl i Hs Hst Hsub Hti) as (s & u & Esv & Epr & Hu & Hsu & Eview & Hsg).
+      apply (Finish (mk_inst tpl' (u_sub u) (Some s) None)).
+      * rewrite El. apply in_flat_map. exists tpl'. split; [assumption|].
+        apply service_in; try assumption; [eapply ggate_le_sound; eauto | now apply sgate_always_sound].
+      * unfold flags_of in *. cbn [i_view i_service i_proto i_tpl mk_inst] in *. rewrite Eview, <- Esv, <- Epr. exact Eq.
+      * intros v _. unfold val_of. cbn [i_view i_service i_proto mk_inst]. now rewrite Eview, Esv, Epr.
+Qed.
